@@ -490,3 +490,10 @@ Proof.
   - apply net_in_wiring; assumption.
   - intros u. rewrite <- P1, <- P3. apply series_network_read; assumption.
 Qed.
+
+(* ---- comparison with an observed execution of a REAL pipeline (correspondence, props/part_gensink.py kind 'pipe'):
+        the observed global action sequence must be admissible for the composite and every action must show exactly the
+        observed hand-overs between the stages (EHand k) and deliveries (EForward), in order ----------------------- *)
+Definition pipe_agree (E : elem) (obs : list (iact (lab E) * list eout)) : bool := agree E (init E) obs.
+Definition pipe_first_diff (E : elem) (obs : list (iact (lab E) * list eout)) : option (nat * option (list eout)) :=
+  first_diff E (init E) obs 0.
